@@ -17,6 +17,29 @@ def load_property(pid: str):
     return importlib.import_module(f"harness.props.{pid.lower()}")
 
 
+def run_corpus(mod, pid: str, rep: Report, known: dict) -> None:
+    """inputs on which earlier (seeded) changes failed this check, kept in corpus/<pid>/: replayed first, so
+    that the return of any of those defects is reported whatever the generators draw this time"""
+    if os.environ.get("VERIF_NO_CORPUS"):
+        return
+    folder = core.CORPUS / pid
+    if not folder.is_dir():
+        return
+    n = 0
+    for f in sorted(folder.glob("*.json")):
+        try:
+            cases = json.loads(f.read_text()).get("cases", [])
+            before = len(rep.violations)
+            mod.check_cases(cases, rep, known)
+            for v in rep.violations[before:]:
+                v["what"] += f" [corpus input {f.name}]"
+            n += len(cases)
+        except (KeyError, TypeError, ValueError, IndexError, AttributeError) as ex:
+            # a corpus entry written for an older case format: noted, never an alarm by itself
+            rep.notes.append(f"corpus entry {f.name} could not be replayed ({type(ex).__name__}: {ex})")
+    rep.hist.setdefault("corpus", {})["cases replayed"] = n
+
+
 def run(pid: str, tier: str, seed: int, replay: str | None) -> int:
     rep = Report(pid, tier, seed)
     mod = load_property(pid)
@@ -41,6 +64,7 @@ def run(pid: str, tier: str, seed: int, replay: str | None) -> int:
             rep.notes.append("implementation source differs from the validated fingerprint (baseline_src.json) in "
                              + ", ".join(core.changed_sources()[:12]) + "; quick-tier case counts tripled, shapes rooted at "
                              + (", ".join(core.changed_classes()) or "no particular class") + " added to the expression streams")
+        run_corpus(mod, pid, rep, known)
         rng = random.Random(seed * 1000003 + int(pid[1:]))
         rep.t_round = time.time()
         mod.run(rep, rng, tier, known)
